@@ -1167,6 +1167,7 @@ type fgEpisode struct {
 	Cfg     config    `json:"config"`
 	Cases   []*fgcase `json:"packages"`
 	skipped string
+	reruns  int
 	fatal   string
 	fails   []lib.Failing
 	nOracle int
@@ -1286,7 +1287,13 @@ func (ep *fgEpisode) run(base string) {
 			labels = append(labels, f.request(step))
 		}
 		o := runBuild(repo, labels)
-		if o.exit != 0 && len(o.failed) == 0 || o.exit == 0 && len(o.failed) != 0 || o.exit < 0 {
+		if o.exit > 0 && len(o.failed) == 0 {
+			// plz failed without naming a target: the --keep_going quirk the genrule repositories retry on (a scheduling
+			// matter, C04/C05). A retry would change the generators' states, so the whole repository is run again instead.
+			ep.skipped = fmt.Sprintf("step %d: exit %d without naming a failed target", step, o.exit)
+			return
+		}
+		if o.exit == 0 && len(o.failed) != 0 || o.exit < 0 {
 			ep.fatal = fmt.Sprintf("filegroup repo, step %d: exit %d with %d failed targets listed: %s", step, o.exit, len(o.failed), headTail(o.text, 1500))
 			return
 		}
@@ -1454,35 +1461,59 @@ func (ep *fgEpisode) emit(c *lib.Ctx) {
 	}
 }
 
-func fgEpisodes(c *lib.Ctx, base string) {
+// fgEpisodes generates the filegroup repositories and starts running them in the background (they share the machine
+// with the genrule repositories); the function returned waits for them and reports.
+func fgEpisodes(c *lib.Ctx, base string) func() {
 	n := c.Scale(4, 40)
 	eps := make([]*fgEpisode, n)
+	seeds := make([]lib.Rng, n)
 	for i := range eps {
-		eps[i] = genFgEpisode(c.Rng.Fork(), i, 9)
+		r := c.Rng.Fork()
+		seeds[i] = *r
+		eps[i] = genFgEpisode(r, i, 9)
 	}
 	var wg sync.WaitGroup
-	sem := make(chan struct{}, 8)
+	sem := make(chan struct{}, 4)
 	for i := range eps {
 		wg.Add(1)
-		sem <- struct{}{}
 		go func(i int) {
 			defer wg.Done()
+			sem <- struct{}{}
 			defer func() { <-sem }()
-			dir := filepath.Join(base, fmt.Sprintf("fg%d", i))
-			os.MkdirAll(dir, 0o755)
-			eps[i].run(dir)
-			os.RemoveAll(dir)
+			// a repository in which plz stopped early is run again from scratch (same generated repository), twice at most
+			for attempt := 0; attempt < 3; attempt++ {
+				if attempt > 0 {
+					r := seeds[i]
+					eps[i] = genFgEpisode(&r, i, 9)
+					eps[i].reruns = attempt
+				}
+				dir := filepath.Join(base, fmt.Sprintf("fg%d_%d", i, attempt))
+				os.MkdirAll(dir, 0o755)
+				eps[i].run(dir)
+				os.RemoveAll(dir)
+				if eps[i].skipped == "" {
+					break
+				}
+			}
 		}(i)
 	}
-	wg.Wait()
+	return func() {
+		wg.Wait()
+		fgReport(c, eps)
+	}
+}
+
+func fgReport(c *lib.Ctx, eps []*fgEpisode) {
 	for _, ep := range eps {
 		if ep.fatal != "" {
 			panic(fmt.Sprintf("filegroup repository %d: %s", ep.Index, ep.fatal))
 		}
-		if ep.skipped != "" {
-			c.Note("filegroup repo %d dropped: %s (--keep_going stopped early)", ep.Index, ep.skipped)
-			c.Hist("keep_going_unreported_target", "fg-repo-dropped")
-			continue
+		if ep.reruns > 0 {
+			c.Note("filegroup repo %d: run again from scratch %d time(s) because plz stopped early (--keep_going)", ep.Index, ep.reruns)
+			c.Hist("keep_going_unreported_target", "fg-repo-rerun")
+		}
+		if ep.skipped != "" { // three times in a row is not a scheduling accident
+			panic(fmt.Sprintf("filegroup repository %d: in three runs from scratch plz stopped without building or reporting a requested target: %s", ep.Index, ep.skipped))
 		}
 		for i := 0; i < ep.nOracle; i++ {
 			c.Oracle()
@@ -1601,8 +1632,9 @@ func main() {
 		base := e2e.Scratch("c35")
 		defer os.RemoveAll(base)
 		corpus(c, base)
-		fgEpisodes(c, base)
+		fgWait := fgEpisodes(c, base)
 		if os.Getenv("C35_ONLY_FG") != "" { // debugging aid: only the filegroup repositories
+			fgWait()
 			return
 		}
 		nrepos := c.Scale(9, 120)
@@ -1625,6 +1657,7 @@ func main() {
 			}(i)
 		}
 		wg.Wait()
+		fgWait()
 		for _, ep := range eps {
 			if ep.fatal != "" {
 				panic(fmt.Sprintf("repository %d: %s", ep.Index, ep.fatal))
